@@ -716,8 +716,12 @@ Proof.
     { induction t as [|c t IH]; [reflexivity|]. cbn [existsb] in E. apply orb_false_iff in E. destruct E as [Ec Et].
       cbn [filter]. rewrite Ec. auto. }
     rewrite (last_line_app_nonl s t Z), nlen_app. f_equal.
-    pose proof (last_line_app_nonl [] t Z) as L. rewrite last_line_eq in L at 2. cbn in L. cbn [app] in L. rewrite L. reflexivity.
+    assert (L0 : last_line (@nil chr) = []) by reflexivity.
+    pose proof (last_line_app_nonl [] t Z) as L. rewrite L0 in L. cbn [app] in L. rewrite L. reflexivity.
 Qed.
+
+Lemma seg_len_app (s t : list chr) : seg_len (s ++ t) = seg_len s + seg_len t.
+Proof. unfold seg_len. induction s as [|c s IH]; cbn [app fold_right]; [lia|]. rewrite IH. lia. Qed.
 
 Theorem end_loc_app s t :
   nlen (filter is_nl (s ++ t)) <= U16MAX -> nlen (s ++ t) <= U32MAX -> seg_len (s ++ t) <= U32MAX ->
@@ -728,8 +732,7 @@ Theorem end_loc_app s t :
     N.min (if existsb is_nl t then out_true_col t else out_true_col s + out_true_col t) U16MAX.
 Proof.
   intros Hl Hc Hb. rewrite filter_app, nlen_app in Hl. rewrite nlen_app in Hc.
-  assert (Hs : seg_len (s ++ t) = seg_len s + seg_len t).
-  { unfold seg_len. induction s as [|c s IH]; cbn [app fold_right]; [lia|]. rewrite IH. lia. }
+  pose proof (seg_len_app s t) as Hs.
   rewrite Hs in Hb.
   destruct (end_loc_others_exact true (s ++ t)) as (A1 & A2 & A3); [rewrite filter_app, nlen_app; lia | rewrite nlen_app; lia | lia|].
   destruct (end_loc_others_exact true s) as (B1 & B2 & B3); [lia | lia | lia|].
